@@ -203,7 +203,12 @@ Theorem connect_accept_delivered s c n app' trn app clock cclock :
     client_handle_input c b cclock = (c2, COk rs) /\
     rs = pre ++ [CPacket b1 false; CEvent CConnectionAccepted; CPacket b2 false] /\ cevents pre = [] /\
     cl_state c2 = Connected /\ cl_app c2 = Some app /\ lookup trn (cl_trs c2) = None /\
-    Link (sv_ser s2) (cl_de c2) /\ ser_ok (cl_ser c2) /\ s_max (cl_ser c2) = cc_chunk (cl_cfg c).
+    Link (sv_ser s2) (cl_de c2) /\ ser_ok (cl_ser c2) /\ s_max (cl_ser c2) = cc_chunk (cl_cfg c) /\
+    cl_cfg c2 = cl_cfg c /\ cl_next_tr c2 = cl_next_tr c /\ cl_stream c2 = cl_stream c /\
+    sv_de s2 = sv_de s /\ sv_ack s2 = sv_ack s /\ sv_streams s2 = sv_streams s /\ sv_next_stream s2 = sv_next_stream s /\ ser_ok (sv_ser s2) /\
+    (snd (ack_step (cl_ack c) (lenN b)) = None -> pre = [] /\ exists ser1,
+       send_message (cl_ser c) (MWindowAcknowledgement (cc_window (cl_cfg c))) cclock 0 false false = Ok (b1, ser1) /\
+       ChunkSer.set_max_chunk_size ser1 (cc_chunk (cl_cfg c)) 0 = Ok (b2, cl_ser c2)).
 Proof.
   intros HL Hcser Hsser Hreq Htrn Htr Hstr Hclk Hcclk Hchunk.
   unfold server_accept. rewrite Hreq. cbv zeta. unfold accept_connection. cbv zeta.
@@ -228,12 +233,14 @@ Proof.
     rewrite Hs.
     assert (Hframe : forall c0, cl_de (fst (ch_message c0 m cclock)) = cl_de c0).
     { intros c0. unfold ch_message. cbn [m m_tid m_data]. rewrite Hof. apply ch_command_de. }
-    destruct (client_handle_packet c b cclock m de1 de3 Hcser G1 G2 Hframe) as [c0 [pre [E1 [E2 [E3 [E4 [E5 [E6 [E7 [Hs0 [Hpre [_ Hin]]]]]]]]]]]].
+    destruct (client_handle_packet c b cclock m de1 de3 Hcser G1 G2 Hframe) as [c0 [pre [E1 [E2 [E3 [E4 [E5 [E6 [E7 [Hs0 [Hpre [Hqc Hin]]]]]]]]]]]].
     (* the client's handler *)
-    assert (Hm : exists b1 b2 ser2,
+    assert (Hm : exists b1 b2 ser2 ser1,
                ch_message (cupd_de c0 de1) m cclock =
                  (cupd_ser (cupd_app (cupd_state (cupd_trs (cupd_de c0 de1) (remove trn (cl_trs c0)) (cl_next_tr c0)) Connected) (Some app)) ser2,
-                  COk [CPacket b1 false; CEvent CConnectionAccepted; CPacket b2 false]) /\ ser_ok ser2 /\ s_max ser2 = cc_chunk (cl_cfg c)).
+                  COk [CPacket b1 false; CEvent CConnectionAccepted; CPacket b2 false]) /\ ser_ok ser2 /\ s_max ser2 = cc_chunk (cl_cfg c) /\
+               send_message (cl_ser c0) (MWindowAcknowledgement (cc_window (cl_cfg c))) cclock 0 false false = Ok (b1, ser1) /\
+               ChunkSer.set_max_chunk_size ser1 (cc_chunk (cl_cfg c)) 0 = Ok (b2, ser2)).
     { unfold ch_message. cbn [m m_tid m_data m_sid]. rewrite Hof.
       rewrite (client_connect_result_handler (cupd_de c0 de1) trn app _ _ cclock Htrn ltac:(cbn [cl_trs cupd_de]; rewrite E3; exact Htr)).
       unfold ch_result, take_transaction. rewrite (u32_roundtrip trn Htrn). cbn [cl_trs cupd_de]. rewrite E3, Htr. cbv zeta.
@@ -247,13 +254,18 @@ Proof.
           destruct (Hk ltac:(cbn [m_data]; change (lenN (be32 (cc_window (cl_cfg c0)))) with 4; lia)) as [bb [ss [Ek _]]]. rewrite Ek in Esm. discriminate. }
       cbn [cl_ser cupd_ser]. rewrite E1.
       destruct (ser_chunk_size_refused ser1 (cc_chunk (cl_cfg c)) 0 Hsm) as [_ Hset]. destruct (Hset Hchunk) as [b2 [ser2 [Eset Hmax]]].
-      rewrite Eset. exists b1, b2, ser2. split; [reflexivity|]. split; [unfold ser_ok; lia|exact Hmax]. }
-    destruct Hm as [b1 [b2 [ser2 [Hm [Hser2 Hmax2]]]]]. rewrite Hm in Hin.
+      rewrite Eset. exists b1, b2, ser2, ser1. split; [reflexivity|]. split; [unfold ser_ok; lia|]. split; [exact Hmax|]. split; [rewrite <- E1; exact Esm|exact Eset]. }
+    destruct Hm as [b1 [b2 [ser2 [ser1 [Hm [Hser2 [Hmax2 [Esend1 Esend2]]]]]]]]. rewrite Hm in Hin.
+    assert (Hser' : ser_ok ser').
+    { destruct (Hok ltac:(cbn [m m_data]; lia)) as [b' [st' [E' Hmx]]]. rewrite Hs in E'. injection E' as <- <-. unfold ser_ok. rewrite Hmx. exact Hsser. }
     exists b, (upd_ser s1 ser'). eexists. eexists. exists b1, b2, pre. split; [reflexivity|]. split; [reflexivity|]. split; [reflexivity|].
     split; [cbn [sv_reqs upd_ser s1 upd_conn upd_reqs]; apply ChunkSpecProofs.lookup_remove_same|].
     split; [exact Hin|]. split; [reflexivity|]. split; [exact Hpre|]. split; [reflexivity|]. split; [reflexivity|].
     split; [cbn [cl_trs cupd_de cupd_ser cupd_app cupd_state cupd_trs]; apply ChunkSpecProofs.lookup_remove_same|].
-    split; [exact HL2|]. split; [exact Hser2|exact Hmax2].
+    split; [exact HL2|]. split; [exact Hser2|]. split; [exact Hmax2|].
+    cbn [cl_cfg cl_next_tr cl_stream cupd_de cupd_ser cupd_app cupd_state cupd_trs sv_de sv_ack sv_streams sv_next_stream sv_ser upd_ser s1 upd_conn upd_reqs].
+    split; [exact E1|]. split; [exact E2|]. split; [exact E6|]. repeat (split; [reflexivity|]). split; [exact Hser'|].
+    intros Hq. destruct (Hqc Hq) as [-> Hc0]. split; [reflexivity|]. exists ser1. rewrite <- Hc0. split; [exact Esend1|exact Esend2].
 Qed.
 
 (* ---------------------------------------------------------------- connect completes (whole-packet deliveries) *)
@@ -289,7 +301,7 @@ Proof.
   destruct Hstr as [_ [_ [_ Hn]]].
   destruct (connect_accept_delivered s1 c1 (sv_next_req s) (strip_slash app) (cl_next_tr c) app aclock cclock HL2' Hcs1 Hss1 Hreq Hn Htr1 Hstr2 Haclk Hcclk
               ltac:(rewrite Hcfg1; exact Hchunk))
-    as [[e He] | [b2 [s2 [c2 [rs [w1 [w2 [pre [A1 [A2 [A3 [A4 [A5 [A6 [A7 [A8 [A9 [A10 [A11 [A12 A13]]]]]]]]]]]]]]]]]]]].
+    as [[e He] | [b2 [s2 [c2 [rs [w1 [w2 [pre [A1 [A2 [A3 [A4 [A5 [A6 [A7 [A8 [A9 [A10 [A11 [A12 [A13 _]]]]]]]]]]]]]]]]]]]]].
   - right. left. exists b1, c1, s1. eexists. exists e. split; [exact E1|]. split; [exact E2|exact He].
   - right. right. exists b1, c1, s1, b2, s2, c2, rs, pre, w1, w2.
     split; [exact E1|]. split; [exact E2|]. split; [exact A1|]. split; [exact A5|]. split; [exact A6|]. split; [exact A7|].
